@@ -166,10 +166,64 @@ macro_rules! eq_checks {
             && (Port::<$t>::new(a).clone() == Port::<$t>::new(a))
             && (PortReadOnly::<$t>::new(a).clone() == PortReadOnly::<$t>::new(a))
             && (PortWriteOnly::<$t>::new(a).clone() == PortWriteOnly::<$t>::new(a))).unwrap_or(false);
-        if !ok {
-            $rep.violation("PartialEq|not-equal-iff-same-port-number", J::obj(vec![("a", J::hex(a as u64)), ("b", J::hex(b as u64))]));
+        // `!=` is its own method of the trait
+        let ok_ne = crate::util::catch(|| (Port::<$t>::new(a) != Port::<$t>::new(b)) == !exp
+            && (PortReadOnly::<$t>::new(a) != PortReadOnly::<$t>::new(b)) == !exp
+            && (PortWriteOnly::<$t>::new(a) != PortWriteOnly::<$t>::new(b)) == !exp).unwrap_or(false);
+        if !ok || !ok_ne {
+            $rep.violation(if ok { "PartialEq::ne|not-the-negation-of-eq" } else { "PartialEq|not-equal-iff-same-port-number" }, J::obj(vec![("a", J::hex(a as u64)), ("b", J::hex(b as u64))]));
         }
     }};
+}
+
+/// the value to write may arrive in any register (here: each of the six argument registers of the C calling convention,
+/// so also in DL / DX, which the instruction needs for the port number)
+macro_rules! write_from_arg_register {
+    ($name:ident, $t:ty, $($pad:ident),*) => {
+        #[inline(never)]
+        extern "C" fn $name($($pad: u64,)* value: $t, port: u16) -> u64 {
+            let mut p: PortWriteOnly<$t> = PortWriteOnly::new(port);
+            unsafe { p.write(value) };
+            0 $(+ ($pad & 0))*
+        }
+    };
+}
+write_from_arg_register!(w8_a0, u8,);
+write_from_arg_register!(w8_a1, u8, x0);
+write_from_arg_register!(w8_a2, u8, x0, x1);
+write_from_arg_register!(w8_a3, u8, x0, x1, x2);
+write_from_arg_register!(w8_a4, u8, x0, x1, x2, x3);
+write_from_arg_register!(w16_a0, u16,);
+write_from_arg_register!(w16_a2, u16, x0, x1);
+write_from_arg_register!(w16_a3, u16, x0, x1, x2);
+write_from_arg_register!(w32_a0, u32,);
+write_from_arg_register!(w32_a2, u32, x0, x1);
+write_from_arg_register!(w32_a3, u32, x0, x1, x2);
+
+fn value_in_every_argument_register(rep: &mut Report, r: &mut Rng) {
+    let port = r.next() as u16;
+    let v = r.next();
+    macro_rules! go {
+        ($f:expr, $w:expr, $mask:expr, $name:expr, $($arg:expr),*) => {{
+            rep.eval();
+            let (_, evs) = trapemu::trapped(|| $f($($arg,)* (v & $mask) as _, port));
+            if evs.len() != 1 || evs[0].kind != K::Out || evs[0].n != port as u32 || evs[0].width != $w || evs[0].val != v & $mask {
+                rep.violation(&format!("PortWriteOnly<u{}>::write|value-arriving-in-argument-register-{}|wrong-value-or-port", $w * 8, $name), J::obj(vec![("profile", J::s(crate::util::profile_name())), ("port", J::hex(port as u64)), ("value", J::hex(v & $mask)), ("events", evs_json(&evs))]));
+            }
+            rep.class(&format!("write-from-argument-register|u{}|{}", $w * 8, $name));
+        }};
+    }
+    go!(w8_a0, 1, 0xff, "0(dil)",);
+    go!(w8_a1, 1, 0xff, "1(sil)", 1);
+    go!(w8_a2, 1, 0xff, "2(dl)", 1, 2);
+    go!(w8_a3, 1, 0xff, "3(cl)", 1, 2, 3);
+    go!(w8_a4, 1, 0xff, "4(r8b)", 1, 2, 3, 4);
+    go!(w16_a0, 2, 0xffff, "0(di)",);
+    go!(w16_a2, 2, 0xffff, "2(dx)", 1, 2);
+    go!(w16_a3, 2, 0xffff, "3(cx)", 1, 2, 3);
+    go!(w32_a0, 4, 0xffff_ffff, "0(edi)",);
+    go!(w32_a2, 4, 0xffff_ffff, "2(edx)", 1, 2);
+    go!(w32_a3, 4, 0xffff_ffff, "3(ecx)", 1, 2, 3);
 }
 
 /// the port instructions declare what they touch: values kept live in registers across a read / write stay what they were
@@ -203,6 +257,7 @@ pub fn run(a: &Args, rep: &mut Report) {
     let mut r = Rng::derive(a.seed, "c18", a.shard);
     for _ in 0..16 {
         register_pressure(rep, &mut r);
+        value_in_every_argument_register(rep, &mut r);
     }
     trapemu::regs().io_state = r.next();
     // an in/out that faults while the monitor is not armed was moved out of the call it belongs to
